@@ -206,7 +206,7 @@ fn gen_script(r: &mut Rng) -> Vec<u8> {
 }
 fn eval_cmd(r: &mut Rng) -> Vec<Vec<u8>> { vec![v(b"EVAL"), gen_script(r), v(b"0")] }
 
-fn gen_cmd(r: &mut Rng, g3: &mut c03::Gen, st: &mut StreamSt, dirty: bool, intx: bool, db0: bool, shas: &[Vec<u8>]) -> Option<Vec<Vec<u8>>> {
+fn gen_cmd(r: &mut Rng, g3: &mut c03::Gen, st: &mut StreamSt, dirty: bool, intx: bool, db0: bool, shas: &[Vec<u8>], restarts: bool) -> Option<Vec<Vec<u8>>> {
     let cmd = match r.below(100) {
         0..=29 => c01::gen_cmd(r),
         30..=57 => g3.cmd(),
@@ -238,6 +238,10 @@ fn gen_cmd(r: &mut Rng, g3: &mut c03::Gen, st: &mut StreamSt, dirty: bool, intx:
     let has = |w: &[u8]| cmd.iter().skip(3).any(|a| a.eq_ignore_ascii_case(w));
     if name == b"SET" && ((has(b"NX") && has(b"XX")) || cmd.windows(2).any(|w| (w[0].eq_ignore_ascii_case(b"EX") || w[0].eq_ignore_ascii_case(b"PX")) && w[1] == b"0")) { return None; }
     if name == b"SETRANGE" && cmd.get(3).map_or(false, |x| x.is_empty()) { return None; }
+    // class startup-executor-differs: the direct SET / INCR / INCRBY refuse the empty key, the record is in the
+    // file all the same, and start-up replays it through the command executor, which accepts it (witness:
+    // binary_witnesses)
+    if restarts && matches!(&name[..], b"SET" | b"INCR" | b"INCRBY") && cmd.get(1).map_or(false, |x| x.is_empty()) { return None; }
     // times to live so long that the deadline, as a Unix time in milliseconds, no longer fits an i64: the
     // PEXPIREAT record then holds a number the replay refuses (harmless: the key keeps the relative time
     // the record before it gave it) - the model's clock starts at 0 and cannot mirror where that happens
@@ -294,6 +298,7 @@ fn random_case(r: &mut Rng, id: String, dirty: bool) -> Case {
             }
         }
     }
+    let restarts = r.chance(1, 3);
     let mut intx = vec![false; 4];
     let mut dbs = vec![0i64; 4];            // the database each connection has selected
     let big = r.chance(1, 4); let len = 4 + r.below(if big { 70 } else { 30 });
@@ -314,8 +319,10 @@ fn random_case(r: &mut Rng, id: String, dirty: bool) -> Case {
                 if n != b"16" { dbs[cu] = if intx[cu] { -1 } else { String::from_utf8_lossy(n).parse().unwrap() }; }
             },
             _ => {
-                if let Some(cmd) = gen_cmd(r, &mut g3, &mut st, dirty, intx[cu], dbs[cu] == 0, &shas) {
-                    if r.chance(1, 50) && cmd.len() >= 2 && upper(&cmd[0]) != b"EVAL" && upper(&cmd[0]) != b"MSET" {
+                if let Some(cmd) = gen_cmd(r, &mut g3, &mut st, dirty, intx[cu], dbs[cu] == 0, &shas, restarts) {
+                    // (a non-bulk argument: not in histories that restart - the direct DEL skips it, the executor
+                    // that replays the record at start-up refuses the command: class startup-executor-differs)
+                    if !restarts && r.chance(1, 50) && cmd.len() >= 2 && upper(&cmd[0]) != b"EVAL" && upper(&cmd[0]) != b"MSET" {
                         let pos = 1 + r.below(cmd.len() as u64 - 1) as usize;
                         let mut fr: Vec<V> = cmd.iter().map(|a| V::Bulk(a.clone())).collect();
                         fr[pos] = if r.chance(1, 2) { V::Int(5) } else { V::NullBulk };
@@ -340,7 +347,7 @@ fn random_case(r: &mut Rng, id: String, dirty: bool) -> Case {
     let dump = dump_reqs();
     ops.push(aofread_op());
     ops.push(aofreplay_op(1, &dump));
-    if r.chance(1, 3) { ops.push(aofrestart_op(8, &dump)); }
+    if restarts { ops.push(aofrestart_op(8, &dump)); }
     Case { id, ops, outs: vec![] }
 }
 
@@ -507,7 +514,20 @@ pub fn witnesses() -> Vec<Case> {
     w
 }
 
+/// witnesses of classes the model of this branch does not reproduce: replayed on the implementation
+/// only (known_findings.json), never generated for the differential run.
+/// startup-executor-differs: start-up replays the file through the command executor (the one redis.call
+/// uses), not through the handlers that ran the commands - the direct SET refuses an empty key, the
+/// refused command is in the file (commands are logged before they run), the executor accepts it
+pub fn binary_witnesses() -> Vec<Case> {
+    let d = vec![V::cmd(&[b"TYPE", b""]), V::cmd(&[b"DBSIZE"])];
+    let mut ops = vec![conn_op(1), conn_op(DUMP_CONN), cmd_op(1, &[b"SET", b"", b"a"]), cmd_op(1, &[b"TYPE", b""]), cmd_op(1, &[b"DBSIZE"])];
+    ops.push(aofread_op()); ops.push(aofreplay_op(1, &d)); ops.push(aofrestart_op(2, &d));
+    vec![Case { id: "w-startup-executor".to_string(), ops, outs: vec![] }]
+}
+
 pub fn gen(seed: u64, n: usize, tier: &str) -> Vec<Case> {
+    if tier == "binary-witnesses" { return binary_witnesses(); }
     if tier == "corpus-witnesses" { return fixed_class_witnesses(); }
     let mut r = Rng::new(seed);
     let mut cases = vec![table_case()];
@@ -905,27 +925,23 @@ pub fn judge(c: &Case, outs: &[Vec<Tok>]) -> Vec<String> {
                     // the pops served to the waiting clients, as the clients saw them (BRECV), against the pop
                     // records of the file; the pushes and pops of the observer, as sent
                     let mut want: Vec<(Vec<u8>, Vec<u8>)> = vec![];
-                    let mut asked: std::collections::HashMap<i128, Vec<u8>> = std::collections::HashMap::new();
+                    let mut asked: std::collections::HashMap<i128, std::collections::VecDeque<Vec<u8>>> = std::collections::HashMap::new();
                     for (j, o) in c.ops.iter().enumerate().take(k) {
-                        match o.first() { Some(Tok::B(n)) if n == b"BSEND" => { let mut p = 4; if let Some(q) = V::dec(o, &mut p) { let nm = req_name(&q); if nm == b"BLPOP" || nm == b"BRPOP" { asked.insert(tok_int(&o[1]), nm); } } }
+                        match o.first() { Some(Tok::B(n)) if n == b"BSEND" => { let mut p = 4; if let Some(q) = V::dec(o, &mut p) { let nm = req_name(&q); let sent = outs.get(j).map_or(false, |r| matches!(r.first(), Some(Tok::I(0)))); if sent && (nm == b"BLPOP" || nm == b"BRPOP") { asked.entry(tok_int(&o[1])).or_default().push_back(nm); } } }
                             Some(Tok::B(n)) if n == b"BRECV" => { if let Some(res) = outs.get(j) { let mut p = 1; while p < res.len() { match V::dec(res, &mut p) {
-                                Some(V::Array(l)) if l.len() == 2 => if let (V::Bulk(key), Some(nm)) = (&l[0], asked.get(&tok_int(&o[1]))) { want.push((if nm == b"BLPOP" { b"LPOP".to_vec() } else { b"RPOP".to_vec() }, key.clone())); },
+                                Some(V::Array(l)) if l.len() == 2 => if let (V::Bulk(key), Some(nm)) = (&l[0], asked.get_mut(&tok_int(&o[1])).and_then(|q| q.pop_front())) { want.push((if nm == b"BLPOP" { b"LPOP".to_vec() } else { b"RPOP".to_vec() }, key.clone())); },
                                 Some(_) => {}, None => break } } } }
                             _ => {} }
                     }
-                    let ex = done();
-                    let mut got: Vec<(Vec<u8>, Vec<u8>)> = vec![];
-                    let mut li = 0;
-                    for f in &logged {
-                        if sel(f).is_some() { continue; }
-                        if li < ex.len() { while li < ex.len() && !(ex[li].req == *f) && !(STATE_CHANGING.contains(&&ex[li].name[..]) && took_effect(&ex[li].name, &ex[li].reply)) { li += 1; } }
-                        if li < ex.len() && ex[li].req == *f { li += 1; continue; }
-                        match f { V::Array(l) if l.len() == 2 && matches!(&req_name(f)[..], b"LPOP" | b"RPOP") => if let V::Bulk(key) = &l[1] { got.push((req_name(f), key.clone())); },
-                                  _ => fails.push(format!("FAIL case={} op={} a record of the file is neither an executed command nor a served pop", c.id, k)) }
-                    }
-                    while li < ex.len() { if STATE_CHANGING.contains(&&ex[li].name[..]) && took_effect(&ex[li].name, &ex[li].reply) { fails.push(format!("FAIL case={} op={} {} took effect but is not in the file", c.id, ex[li].op, String::from_utf8_lossy(&ex[li].name))); } li += 1; }
-                    want.sort(); got.sort();
-                    if want != got { fails.push(format!("FAIL case={} op={} the pops served to blocked clients ({}) are not the pop records of the file ({})", c.id, k, want.len(), got.len())); }
+                    // expected: every push / pop the observer sent (write commands are logged as sent) and one
+                    // pop record per served pop; compared as multisets here (the order is compared, byte for
+                    // byte, with the model's log)
+                    let mut expect: Vec<V> = done().iter().filter(|d| matches!(&d.name[..], b"RPUSH" | b"LPUSH" | b"LPOP" | b"RPOP")).map(|d| d.req.clone()).collect();
+                    for (nm, key) in &want { expect.push(V::Array(vec![bulk(nm), bulk(key)])); }
+                    let mut got: Vec<V> = logged.iter().filter(|f| sel(f).is_none()).cloned().collect();
+                    let keyf = |f: &V| { let mut w = vec![]; f.wire(&mut w); w };
+                    expect.sort_by_key(keyf); got.sort_by_key(keyf);
+                    if expect != got { fails.push(format!("FAIL case={} op={} the file's records ({}) are not the observer's pushes and pops plus one pop per served blocking pop ({}, {} served)", c.id, k, got.len(), expect.len(), want.len())); }
                     continue;
                 }
                 let ex = done();
@@ -982,7 +998,10 @@ pub fn judge(c: &Case, outs: &[Vec<Tok>]) -> Vec<String> {
                 let lost = match &last_live_dump { Some(before) => before.len() == after.len() && *before != after,
                     // without a previous dump: any executed effective write means the dataset was not empty
                     None => done().iter().any(|d| STATE_CHANGING.contains(&&d.name[..]) && took_effect(&d.name, &d.reply)) && after.iter().all(|x| matches!(x, V::Int(0) | V::Int(-2) | V::NullBulk | V::Error(_)) || matches!(x, V::Array(l) if l.is_empty()) || matches!(x, V::Simple(t) | V::Bulk(t) if t == b"none")) };
-                if lost { fails.push(format!("FAIL case={} op={} the dataset is not recovered from the file at start-up", c.id, k)); }
+                // known class: a SET of the empty key, refused when it was sent, is accepted by the start-up replay
+                let class = if done().iter().any(|d| (matches!(&d.name[..], b"SET" | b"INCR" | b"INCRBY") && arg(&d.req, 1).map_or(false, |a| a.is_empty()))
+                                                        || matches!(&d.req, V::Array(l) if l.iter().any(|a| !matches!(a, V::Bulk(_))))) { "class=startup-executor-differs " } else { "" };
+                if lost { fails.push(format!("FAIL case={} op={} {}the dataset after the restart is not the dataset before it", c.id, k, class)); }
             }
             _ => {}
         }
